@@ -1,6 +1,6 @@
 (* Dispatcher: one case = list of integers, first the kind. *)
 From Coq Require Import ZArith List.
-From RRTK Require Import Num.Num Num.B32 Model.Values Model.Prog Model.Wire Model.WireStreams Model.WireSettable Model.WireMP.
+From RRTK Require Import Num.Num Num.B32 Model.Values Model.Prog Model.Wire Model.WireStreams Model.WireSettable Model.WireMP Model.WireWorld.
 Import ListNotations.
 Local Open Scope Z_scope.
 
@@ -11,5 +11,6 @@ Definition run_case (l : list Z) : list Z :=
   | 4 :: r => run_strm_case r
   | 5 :: r => run_sett_case r
   | 6 :: r => run_mp_case r
+  | 7 :: r => run_world_case r
   | _ => [W_BAD]
   end.
